@@ -640,6 +640,7 @@ impl PayloadWriter {
         &&& forall|j: int| 0 <= j < chunks.len() ==> #[trigger] post.payload(pre.nframes() + j) == hist_line(head, chunks[j], ty, tr)
     }
 
+#[verifier::spinoff_prover]
 //@ITEM file=metrics-exporter-dogstatsd/src/writer.rs sel=impl PayloadWriter :: fn write_hist_dist_inner ret=r
 //@REWRITE R2 let values = values.into_iter(); ==> let values = shim_into_iter(values);
 //@REWRITE R2d re:\b(\w+)\.iter\(\) ==> shim_slice_iter(\1)
